@@ -17,7 +17,7 @@ func init() {
 		Decided: "the decoder's type registry names exactly the Node types, each mapped to the same-named type (R15a); every field reachable from a node type is exported and of a kind " +
 			"that both encodeValue and decodeValue handle, Pos being special-cased by type identity on both sides (R15b); every operator constant's wire string " +
 			"(evaluated from the stringer tables) is mapped back to the same value by the type's UnmarshalText (R15c); every reflect operation in decodeValue/decodePos that can " +
-			"panic on a mismatching value is dominated by the kind or assignability test that makes it safe (R15d).",
+			"panic on a mismatching value is dominated by the kind or assignability test that makes it safe (R15d). The decoder refuses on shape, never on value (R15e); the encoder writes something for every struct it reaches (R15f).",
 		NotDecided:  "byte-identical re-encoding; loss of recovered positions; equality of decoded trees field by field (runtime values).",
 		Assumptions: []string{"encoding/json decodes only into nil, bool, float64, string, []any, map[string]any", "reflect semantics as documented"},
 		Controls:    c15Controls,
